@@ -23,6 +23,7 @@ Observations:
 import GoZero.Base.Trace
 import GoZero.C03.Spec
 import GoZero.C03.ScriptRun
+import GoZero.C03.RescueIval
 namespace GoZero.C03
 
 open GoZero
@@ -70,7 +71,7 @@ def parseLink : String → Option Link
 
 def parseForged : String → Option Forged
   | "strreply" => some .str | "int3reply" => some (.int 3) | "intm1reply" => some (.int (-1))
-  | "nilreply" => some .nil | _ => none
+  | "nilreply" => some .nil | "int1reply" => some (.int 1) | "int2reply" => some (.int 2) | _ => none
 
 def Forged.describe : Forged → String
   | .str => "a string" | .int v => s!"the integer {v}" | .nil => "a nil reply"
@@ -250,7 +251,14 @@ def runPeriod (r : Report) (s : Section) : Report := Id.run do
       -- a cancelled context never reaches the server
       let (r', c') := checkTrips r s.idx l.idx "cancelled take" d.conn ((l.obs.drop 3).headD "") false
       r := r'; d := { d with conn := c' }
-    | "take" :: k :: _ | "takec" :: k :: _ | "ftake" :: k :: _ | "takef" :: k :: _ =>
+    | "take" :: k :: _ | "takec" :: k :: _ | "ftake" :: k :: _ | "takef" :: k :: _ | "ltake" :: k :: _ =>
+      -- ltake: the script runs, the reply is lost (deadline / timeout during the call)
+      let lostCls : Option String := if l.op.headD "" == "ltake" then
+          (match (l.op.drop 2).headD "" with | "deadline" => some "deadline" | "timeout" => some "err" | _ => none)
+        else none
+      if l.op.headD "" == "ltake" && (lostCls.isNone || !d.up || d.forged.isSome || d.conn.link != .up || !d.conn.loaded) then
+        r := r.mismatch s.idx l.idx "ltake <key> deadline|timeout on a served link" (joinSp l.op)
+        continue
       -- which limiter (takec names it): its prefix is part of the Redis key
       let lim : Nat := if l.op.headD "" == "takec" then ((l.op.drop 2).headD "0").toNat?.getD 0 else 0
       if l.op.headD "" == "takec" && (lim ≥ kvNat s.cfg "nlim" 1 || (l.op.drop 2).isEmpty) then
@@ -279,7 +287,7 @@ def runPeriod (r : Report) (s : Section) : Report := Id.run do
         let model := s!"{res.1.toNat} {res.2.str} {dumpKey d.sys.store "cnt" k}"
         let implCmp := joinSp (l.obs.take 3)
         if model ≠ implCmp then r := r.mismatch s.idx l.idx model implCmp
-        r := r.addCover (match f with | .str => "p-take-reply-string" | .int _ => "p-take-reply-integer-no-code" | .nil => "p-take-reply-nil")
+        r := r.addCover (match f with | .str => "p-take-reply-string" | .nil => "p-take-reply-nil" | .int v => if v = 1 || v = 2 then "p-take-reply-forged-code-believed" else "p-take-reply-integer-no-code")
         let obsCode := (l.obs.headD "?")
         let obsErr := (l.obs.drop 1).headD "?"
         if !(f = .int 1 || f = .int 2 || f = .int 0) && (obsCode ≠ "0" || obsErr = "nil") then
@@ -309,9 +317,9 @@ def runPeriod (r : Report) (s : Section) : Report := Id.run do
           r := r.violation s.idx l.idx s!"period: Align(): the life started by take {k} does not end on a multiple of the period of the local clock (unix + zone offset): {msg}"
         else r := r.mismatch s.idx l.idx msg impl
       | some (.inl w) =>
-        let res := d.sys.take quota w k
+        let res := if lostCls.isSome then (d.sys.takeLost quota w k) else d.sys.take quota w k
         d := { d with sys := res.1 }
-        let model := s!"{res.2.1.toNat} {res.2.2.str} {dumpKey d.sys.store "cnt" k}"
+        let model := s!"{res.2.1.toNat} {lostCls.getD res.2.2.str} {dumpKey d.sys.store "cnt" k}"
         let implCmp := joinSp (l.obs.take 3)
         if model ≠ implCmp then r := r.mismatch s.idx l.idx model implCmp
         -- monitor on the implementation's observation
@@ -319,6 +327,14 @@ def runPeriod (r : Report) (s : Section) : Report := Id.run do
         let obsErr := (l.obs.drop 1).headD "?"
         let (d', code) := specTake quota d clock k w
         d := d'
+        if lostCls.isSome then
+          -- the permit is consumed (the specification counts the take), the caller must get Unknown + error
+          r := r.addCover (if lostCls == some "deadline" then "p-take-reply-lost-deadline" else "p-take-reply-lost-timeout")
+          if obsCode ≠ "0" || obsErr = "nil" then
+            r := r.violation s.idx l.idx s!"period: the reply of take {k0} was lost after the script ran but the caller was answered [{obsCode} {obsErr}] (a permit may be consumed without a grant, never a grant without a reply)"
+          let (r', c') := checkTrips r s.idx l.idx s!"take {k0}" d.conn ((l.obs.drop 3).headD "") true
+          r := r'; d := { d with conn := c' }
+          continue
         r := r.addCover (match code with
           | .allowed => if fresh then "p-allowed-first" else "p-allowed"
           | .hitQuota => "p-hitquota" | .overQuota => "p-overquota" | .unknown => "p-unknown")
@@ -439,6 +455,8 @@ structure TDrv where
   conn    : Conn := {}                  -- link state and script cache of the store client's path
   pingOk  : Bool := true                -- the server answers PING with PONG (only in link state `up`)
   forged  : Option Forged := none       -- the server answers EVALSHA without running the script
+  lost    : Option LostKind := none     -- THIS call loses its reply after the script ran
+  iv      : Nat → IvState := fun _ => ⟨0, 0⟩   -- bounds on the empty time of each instance's local bucket (wall-clock sections)
 
 def tokDump (c : TCfg) (s : Store) : String := s!"{dumpKey s "tok" c.k1} {dumpKey s "ts" c.k2}"
 
@@ -458,9 +476,10 @@ def timedOk (ttl : Nat) (hist : List (Nat × Nat)) (clock sec : Nat) : Bool :=
 then the monitors. Returns the model's decision, the deciding bucket, whether the float boundary was taken. -/
 def tokAllow (c : TCfg) (d : TDrv) (i ns n : Nat) (implOk : Option Bool) : TDrv × Bool × Route × Bool :=
   let inst := d.sys.insts i
-  let res := match d.forged with
-    | some f => d.sys.reserveForged c i ns n f
-    | none => d.sys.reserveN true c i ns n
+  let res := match d.lost, d.forged with
+    | some k, _ => d.sys.reserveLost c i ns n k
+    | none, some f => d.sys.reserveForged c i ns n f
+    | none, none => d.sys.reserveN true c i ns n
   -- exact deficit of exactly one ns: the float computation of x/time/rate may round either way
   let boundary := res.2.route = .rescue && c.ival ≠ 0 && n ≤ c.burst &&
     ((if inst.alive then inst.startMonitor else inst).rescue.after c ns n == -1)
@@ -512,7 +531,7 @@ def runToken (r : Report) (s : Section) : Report := Id.run do
   let ninst := kvNat s.cfg "ninst" 1
   let c : TCfg := ⟨rate, burst, "{k}.tokens", "{k}.ts"⟩
   let ttl := ttlFixed rate burst
-  let mut d : TDrv := { sys := Sys.init c, bucket := Spec.Bucket.init burst }
+  let mut d : TDrv := { sys := Sys.init c, bucket := Spec.Bucket.init burst, iv := fun _ => IvState.init c }
   let mut r := r
   let mut abandoned := false
   if burst = 0 then r := r.addCover "t-sec-burst-zero"
@@ -572,7 +591,7 @@ def runToken (r : Report) (s : Section) : Report := Id.run do
         r := r.violation s.idx l.idx s!"token: PING fails but Redis.Ping() reports success [{impl}]: an instance would return to a store that is unreachable"
     | ["upstore"] =>
       -- scripts are served again, no ping has succeeded yet: no pingOk / monExit event
-      d := { d with sys := (d.sys.step true c .up).1, up := true, conn := { d.conn with link := .up }, forged := none }
+      d := { d with sys := (d.sys.step true c .up).1, up := true, conn := { d.conn with link := .up }, forged := none, pingOk := false }
       r := r.addCover "t-upstore"
       if (List.range ninst).any fun i => !(d.sys.insts i).alive then r := r.addCover "t-upstore-some-instance-in-rescue"
       if impl ≠ "ok" then r := r.mismatch s.idx l.idx "ok" impl
@@ -681,6 +700,50 @@ def runToken (r : Report) (s : Section) : Report := Id.run do
           let (d', r') := jointGrant burst rate r s l d sec (obsG * n)
           d := d'; r := r'
       | _, _, _ => r := r.mismatch s.idx l.idx "bad-op" (joinSp l.op)
+    | ["lallow", i, ns, n, kind] =>
+      let lk : Option LostKind := match kind with | "deadline" => some .deadline | "timeout" => some .timeout | _ => none
+      match lk, i.toNat?, ns.toNat?, n.toNat? with
+      | some lk, some i, some ns, some n =>
+        if !((d.sys.insts i).alive && d.up && typeOk && d.forged.isNone && d.conn.link = .up && d.conn.loaded) then
+          r := r.mismatch s.idx l.idx "lallow on an instance on the store path over a served link" (joinSp l.op)
+          continue
+        let rtTok := l.obs.getLast?.getD ""
+        let impl := joinSp l.obs.dropLast
+        let (r', c') := checkTrips r s.idx l.idx s!"lallow inst={i}" d.conn rtTok true
+        r := r'; d := { d with conn := c' }
+        let sec := ns / nsPerSec
+        let clock := d.sys.store.clock
+        if d.hypOk && !timedOk ttl d.hist clock sec then
+          d := { d with hypOk := false }
+          r := r.addCover "t-hyp-broken"
+        d := { d with hist := (clock, sec) :: d.hist }
+        let obsOk := l.obs.headD "?"
+        let implOk : Option Bool := if obsOk = "ok" then some true else if obsOk = "no" then some false else none
+        let (d', mOk, route, bnd) := tokAllow c { d with lost := some lk } i ns n implOk
+        d := { d' with lost := none }
+        if bnd then
+          r := r.addCover "t-rescue-float-boundary"
+          d := { d with slack := fun j => if j = i then d.slack i + 1 else d.slack j }
+        let model := s!"{if mOk then "ok" else "no"} a=1 s={instFlags (d.sys.insts i)} {tokDump c d.sys.store}"
+        if model ≠ impl then r := r.mismatch s.idx l.idx model impl
+        -- the shared bucket was charged as by an answered request (`lost_reply_charges_bucket`): the ONE bucket goes on
+        let charged := if d.hypOk then (d.bucket.allow rate burst sec n).2 else false
+        if d.hypOk then d := { d with bucket := (d.bucket.allow rate burst sec n).1 }
+        r := r.addCover (match lk with
+          | .deadline => if charged then "t-reply-lost-deadline-token-consumed-without-grant" else "t-reply-lost-deadline-nothing-to-consume"
+          | .timeout => if charged then "t-reply-lost-timeout-charged-and-goes-local" else "t-reply-lost-timeout-goes-local")
+        if route = .store then
+          -- a context error: the caller is refused whatever the script did
+          if implOk ≠ some false then
+            r := r.violation s.idx l.idx s!"token: the reply of the request inst={i} n={n} was lost after the script ran (the caller's deadline) but the caller was answered [{obsOk}] (a token may be consumed without a grant, never a grant without a reply)"
+          else if ((kv? l.obs "s").getD "1").startsWith "0" then
+            r := r.violation s.idx l.idx s!"token: a deadline that expired during the script call was taken for a store failure, inst={i} left the shared bucket ({(kv? l.obs "s").getD ""})"
+        else
+          d := noteRescue d i ns
+          if implOk = some true then
+            let (d', r') := localGrant c burst rate r s l d i ns n
+            d := d'; r := r'
+      | _, _, _, _ => r := r.mismatch s.idx l.idx "bad-op" (joinSp l.op)
     | [verb, i, ns, n] =>
       match (verb == "allow" || verb == "allowc" || verb == "allowx" || verb == "allowd" || verb == "allowf" || verb == "fallow"), i.toNat?, ns.toNat?, n.toNat? with
       | true, some i, some ns, some n =>
@@ -730,7 +793,7 @@ def runToken (r : Report) (s : Section) : Report := Id.run do
             d := { d with slack := fun j => if j = i then d.slack i + 1 else d.slack j }
           let model := s!"{if mOk then "ok" else "no"} a=1 s={instFlags (d.sys.insts i)} {tokDump c d.sys.store}"
           if model ≠ impl then r := r.mismatch s.idx l.idx model impl
-          r := r.addCover (match f with | .str => "t-allow-reply-string-goes-local" | .int _ => "t-allow-reply-integer-not-1" | .nil => "t-allow-reply-nil")
+          r := r.addCover (match f with | .str => "t-allow-reply-string-goes-local" | .nil => "t-allow-reply-nil" | .int v => if v = 1 then "t-allow-reply-forged-1-believed" else "t-allow-reply-integer-not-1")
           if n > burst then r := r.addCover "t-forged-n-over-burst"
           if route = .store then
             if implOk = some true && f ≠ .int 1 then
@@ -871,6 +934,22 @@ def runToken (r : Report) (s : Section) : Report := Id.run do
           let model := s!"{obsOk} a={b2s inst0.alive} s={instFlags (d.sys.insts i)} {tokDump c d.sys.store}"
           if model ≠ impl then r := r.mismatch s.idx l.idx model impl
           r := r.addCover (if implOk = some true then "t-entry-rescue-grant" else "t-entry-rescue-deny")
+          -- interval model (RescueIval.lean, `ivRun_sound` / `ivStep_complete`): the decision must be possible for SOME
+          -- clock value between the two readings (widened by 2 ns for the limiter's float64 arithmetic)
+          if c.ival ≠ 0 then
+            match implOk with
+            | some dec =>
+              match ivStep c (d.iv i) ((t0 : Int) - 2) ((t1 : Int) + 2) n dec with
+              | some iv' =>
+                d := { d with iv := fun j => if j = i then iv' else d.iv j }
+                r := r.addCover (if (ivStep c (d.iv i) ((t0 : Int) - 2) ((t1 : Int) + 2) n (!dec)).isSome
+                  then "t-entry-rescue-either-decision-possible" else "t-entry-rescue-decision-determined")
+              | none =>
+                if dec then
+                  r := r.violation s.idx l.idx s!"token: {verb} in rescue mode was granted, but for no clock value between {t0} and {t1} does the local bucket of inst={i} (burst={burst}, one token per {c.ival} ns) hold a token: its empty time is at least {(d.iv i).lo}"
+                else
+                  r := r.mismatch s.idx l.idx s!"ok (the local bucket of inst={i} holds a token for every clock value in the bracket: empty time at most {(d.iv i).hi})" impl
+            | none => pure ()
           d := { d with slack := fun j => if j = i then d.slack i + (t1 - t0) else d.slack j }
           d := noteRescue d i t1
           if implOk = some true then
